@@ -3,6 +3,7 @@
    Model.Solvers (through [run_query]), every framework view, argument list, encoder, fuel,
    n_vars discipline and EVERY oracle (i.e. every sequence of answers, valid or not). *)
 From Crusta Require Import Sat.Cnf Sat.Prog Model.Store Model.Solvers Model.Dynamic Proofs.AbortProofs Proofs.AbortDyn.
+From Crusta Require Model.SatObjects Model.SatSpec Model.Cli Proofs.CliProofs Proofs.Clauses2.
 Import ListNotations.
 
 (* If the run ends in Abort, its most recent SAT event is an Unknown answer and no earlier answer
@@ -99,9 +100,37 @@ Example C17_dynamic_abort_example :
    end).
 Proof. vm_compute. split; reflexivity. Qed.
 
+(* ---- the remaining clauses of the property text *)
+(* "(reports unknown, crashes, exits without a verdict, or prints a truncated or garbled reply)": how a
+   failing EXTERNAL solver reaches the theorems above.  BufferedSatSolver ([SatObjects.buf_step]) hands
+   the instance to the solving function and reads its output [out]: an empty output (crash, exit without
+   a verdict) is the answer Unknown; a model is reported only if [out] carries the line `s SATISFIABLE`
+   and value lines with their terminating 0, Unsat only if it carries `s UNSATISFIABLE` (so a truncated
+   or garbled reply is not a verdict, see also C16_reply_truncated); whatever [out] is, the call yields
+   Unknown, a panic of the reader (the query dies: an abort as well), or such a verdict *)
+Theorem C17_external_failure_never_a_verdict : forall fn s a,
+  let out := fn (SatObjects.buf_instance s a) in
+  let ob := snd (SatObjects.buf_step fn s (SatObjects.OSolve a)) in
+  (out = [] -> ob = SatObjects.ObsAns Unknown) /\
+  (forall m, ob = SatObjects.ObsAns (Sat m) ->
+     In Dimacs.b_sat (SatSpec.lines_of out) /\ SatSpec.has_terminator (SatSpec.lines_of out)) /\
+  (ob = SatObjects.ObsAns Unsat -> In Dimacs.b_unsat (SatSpec.lines_of out)) /\
+  (ob = SatObjects.ObsAns Unknown \/ ob = SatObjects.ObsPanic \/ SatObjects.verdict_of ob <> None).
+Proof. exact Clauses2.external_failure_never_a_verdict. Qed.
+
+(* "On the command line this means a non-zero exit status with no answer on stdout" (= C05_unknown_exit_nonzero,
+   Proofs/CliProofs.v): if any SAT answer of a run of the command-line tool is Unknown, the result is
+   [ExitNonZero] - the result type of the model has stdout bytes only in [Exit0 out] *)
+Theorem C17_command_line_nonzero_exit_no_answer : forall oracle thr d fuel o inst k a,
+  In (k, ESolve a Unknown) (snd (Cli.run_traced oracle thr d fuel o inst)) ->
+  fst (Cli.run_traced oracle thr d fuel o inst) = Cli.ExitNonZero.
+Proof. exact CliProofs.unknown_exit_nonzero. Qed.
+
 Print Assumptions C17_unknown_aborts.
 Print Assumptions C17_script_unknown_aborts.
 Print Assumptions C17_dynamic_unknown_aborts.
 Print Assumptions C17_dynamic_new_no_answer.
 Print Assumptions C17_dynamic_script_unknown_aborts.
 Print Assumptions C17_unknown_aborts_since.
+Print Assumptions C17_external_failure_never_a_verdict.
+Print Assumptions C17_command_line_nonzero_exit_no_answer.
